@@ -11,7 +11,10 @@ use crate::shadow;
 use crate::tk;
 use crate::util::*;
 use std::mem::{align_of, align_of_val, size_of, size_of_val, MaybeUninit};
-use triomphe::{Arc, ArcBorrow, ArcUnion, ArcUnionBorrow, HeaderSlice, HeaderWithLength, OffsetArc, ThinArc, UniqueArc};
+use triomphe::{
+    Arc, ArcBorrow, ArcUnion, ArcUnionBorrow, HeaderSlice, HeaderWithLength, OffsetArc, ThinArc,
+    UniqueArc,
+};
 
 pub trait Sh: Sized + Send + Sync + PartialEq + 'static {
     const NAME: &'static str;
@@ -54,7 +57,10 @@ macro_rules! copy_ctors {
 }
 
 fn pat(i: u64, k: usize) -> u8 {
-    (i.wrapping_mul(131).wrapping_add(k as u64 * 7).wrapping_add(3) & 0xFF) as u8
+    (i.wrapping_mul(131)
+        .wrapping_add(k as u64 * 7)
+        .wrapping_add(3)
+        & 0xFF) as u8
 }
 
 macro_rules! bytes_shape {
@@ -187,16 +193,47 @@ impl SStats {
 }
 
 /// What the allocator must have seen for a payload living at [p, p+size) with alignment `al`.
-fn check_block(what: &str, heap: usize, p: usize, size: usize, al: usize) -> R<(usize, usize, usize)> {
+fn check_block(
+    what: &str,
+    heap: usize,
+    p: usize,
+    size: usize,
+    al: usize,
+) -> R<(usize, usize, usize)> {
     if !shadow::active() {
-        ensure!(p % al == 0, "C05", "layout", "{}: payload address {:#x} not aligned to {}", what, p, al);
+        ensure!(
+            p % al == 0,
+            "C05",
+            "layout",
+            "{}: payload address {:#x} not aligned to {}",
+            what,
+            p,
+            al
+        );
         return Ok((heap, 0, 0));
     }
     let (bsize, balign) = match shadow::live_layout(heap) {
         Some(x) => x,
-        None => return viol("C05,C11", "layout", format!("{}: heap_ptr {:#x} is not a live block handed out by the allocator", what, heap)),
+        None => {
+            return viol(
+                "C05,C11",
+                "layout",
+                format!(
+                    "{}: heap_ptr {:#x} is not a live block handed out by the allocator",
+                    what, heap
+                ),
+            )
+        }
     };
-    ensure!(p % al == 0, "C05", "layout", "{}: payload address {:#x} not aligned to {}", what, p, al);
+    ensure!(
+        p % al == 0,
+        "C05",
+        "layout",
+        "{}: payload address {:#x} not aligned to {}",
+        what,
+        p,
+        al
+    );
     ensure!(
         balign >= al.max(align_of::<usize>()),
         "C05",
@@ -227,10 +264,21 @@ fn check_released(what: &str, heap: usize) -> R {
 
 fn check_released_p(what: &str, heap: usize, props: &'static str) -> R {
     if shadow::active() {
-        ensure!(shadow::live_layout(heap).is_none(), props, "layout", "{}: block {:#x} was not returned to the allocator", what, heap);
+        ensure!(
+            shadow::live_layout(heap).is_none(),
+            props,
+            "layout",
+            "{}: block {:#x} was not returned to the allocator",
+            what,
+            heap
+        );
     }
     if let Some(f) = shadow::take_findings().first() {
-        return viol(props, "layout", format!("{}: allocator monitor: {:?}", what, f));
+        return viol(
+            props,
+            "layout",
+            format!("{}: allocator monitor: {:?}", what, f),
+        );
     }
     let f = tk::take_findings();
     if !f.is_empty() {
@@ -240,7 +288,14 @@ fn check_released_p(what: &str, heap: usize, props: &'static str) -> R {
 }
 
 fn check_val<T: Sh>(what: &str, v: &T, i: u64) -> R {
-    ensure!(v.ok(i), "C05,C06", "layout", "{}: contents corrupted or misaligned (shape {})", what, T::NAME);
+    ensure!(
+        v.ok(i),
+        "C05,C06",
+        "layout",
+        "{}: contents corrupted or misaligned (shape {})",
+        what,
+        T::NAME
+    );
     Ok(())
 }
 
@@ -250,14 +305,41 @@ fn check_val<T: Sh>(what: &str, v: &T, i: u64) -> R {
 type Hs<H, T> = HeaderSlice<H, [T]>;
 
 fn check_hs<H: Sh, T: Sh>(what: &str, x: &Hs<H, T>, len: usize, heap: usize) -> R {
-    ensure!(x.slice.len() == len, "C06,C10", "layout", "{}: slice length {} instead of {}", what, x.slice.len(), len);
-    check_block(what, heap, x as *const Hs<H, T> as *const u8 as usize, size_of_val(x), align_of_val(x))?;
+    ensure!(
+        x.slice.len() == len,
+        "C06,C10",
+        "layout",
+        "{}: slice length {} instead of {}",
+        what,
+        x.slice.len(),
+        len
+    );
+    check_block(
+        what,
+        heap,
+        x as *const Hs<H, T> as *const u8 as usize,
+        size_of_val(x),
+        align_of_val(x),
+    )?;
     check_val(what, &x.header, 1000)?;
     let hp = &x.header as *const H as usize;
-    ensure!(hp % align_of::<H>() == 0, "C05", "layout", "{}: header misaligned", what);
+    ensure!(
+        hp % align_of::<H>() == 0,
+        "C05",
+        "layout",
+        "{}: header misaligned",
+        what
+    );
     for (k, e) in x.slice.iter().enumerate() {
         let ep = e as *const T as usize;
-        ensure!(ep % align_of::<T>() == 0, "C05", "layout", "{}: element {} misaligned", what, k);
+        ensure!(
+            ep % align_of::<T>() == 0,
+            "C05",
+            "layout",
+            "{}: element {} misaligned",
+            what,
+            k
+        );
         check_val(what, e, k as u64)?;
     }
     Ok(())
@@ -303,7 +385,14 @@ pub const B_RELS: usize = 8;
 /// One (H, T, len, constructor, release path) case of the header+slice family.
 pub fn case_b<H: Sh, T: Sh>(len: usize, ctor: usize, rel: usize, st: &mut SStats) -> R {
     let zst = size_of::<T>() == 0;
-    let what = format!("H={} T={} len={} ctor=B{} rel=R{}", H::NAME, T::NAME, len, ctor, rel);
+    let what = format!(
+        "H={} T={} len={} ctor=B{} rel=R{}",
+        H::NAME,
+        T::NAME,
+        len,
+        ctor,
+        rel
+    );
     let z0 = tk::z_live();
     shadow::reset();
     // constructors that go through ThinArc / into_thin need HeaderWithLength
@@ -332,7 +421,8 @@ pub fn case_b<H: Sh, T: Sh>(len: usize, ctor: usize, rel: usize, st: &mut SStats
                 "Arc::from_header_and_vec"
             }
             3 => {
-                let mut u: UniqueArc<HeaderSlice<H, [MaybeUninit<T>]>> = UniqueArc::from_header_and_uninit_slice(H::gen(1000), len);
+                let mut u: UniqueArc<HeaderSlice<H, [MaybeUninit<T>]>> =
+                    UniqueArc::from_header_and_uninit_slice(H::gen(1000), len);
                 for (k, s) in u.slice.iter_mut().enumerate() {
                     s.write(T::gen(k as u64));
                 }
@@ -340,7 +430,10 @@ pub fn case_b<H: Sh, T: Sh>(len: usize, ctor: usize, rel: usize, st: &mut SStats
                 "UniqueArc::from_header_and_uninit_slice+assume_init"
             }
             4 => {
-                thin = Some(ThinArc::from_header_and_iter(H::gen(1000), gen::<T>(len, true)));
+                thin = Some(ThinArc::from_header_and_iter(
+                    H::gen(1000),
+                    gen::<T>(len, true),
+                ));
                 "ThinArc::from_header_and_iter"
             }
             5 => {
@@ -354,7 +447,10 @@ pub fn case_b<H: Sh, T: Sh>(len: usize, ctor: usize, rel: usize, st: &mut SStats
                 }
             }
             _ => {
-                let f = Arc::from_header_and_vec(HeaderWithLength::new(H::gen(1000), len), gen::<T>(len, true).collect());
+                let f = Arc::from_header_and_vec(
+                    HeaderWithLength::new(H::gen(1000), len),
+                    gen::<T>(len, true).collect(),
+                );
                 thin = Some(Arc::into_thin(f));
                 "Arc::from_header_and_vec(HeaderWithLength)+into_thin"
             }
@@ -372,7 +468,13 @@ pub fn case_b<H: Sh, T: Sh>(len: usize, ctor: usize, rel: usize, st: &mut SStats
                 what,
                 msg
             );
-            ensure!(tk::z_live() == z0, "C06", "layout", "{}: refused constructor did not destroy its inputs exactly once", what);
+            ensure!(
+                tk::z_live() == z0,
+                "C06",
+                "layout",
+                "{}: refused constructor did not destroy its inputs exactly once",
+                what
+            );
             st.counts.bump("shapes.b.refused-zst");
             return Ok(());
         }
@@ -387,22 +489,67 @@ pub fn case_b<H: Sh, T: Sh>(len: usize, ctor: usize, rel: usize, st: &mut SStats
     if let Some(f) = &fat {
         heap = f.heap_ptr() as usize;
         check_hs(&what, &**f, len, heap)?;
-        ensure!(Arc::as_ptr(f) as *const u8 as usize == &**f as *const Hs<H, T> as *const u8 as usize, "C11", "ptr", "{}: as_ptr != Deref address", what);
+        ensure!(
+            Arc::as_ptr(f) as *const u8 as usize == &**f as *const Hs<H, T> as *const u8 as usize,
+            "C11",
+            "ptr",
+            "{}: as_ptr != Deref address",
+            what
+        );
     } else {
         let t = thin.as_ref().unwrap();
         heap = t.heap_ptr() as usize;
-        ensure!(t.header.length == len, "C10", "thin", "{}: recorded length {}", what, t.header.length);
-        ensure!(t.slice.len() == len, "C10,C06", "thin", "{}: slice length {}", what, t.slice.len());
+        ensure!(
+            t.header.length == len,
+            "C10",
+            "thin",
+            "{}: recorded length {}",
+            what,
+            t.header.length
+        );
+        ensure!(
+            t.slice.len() == len,
+            "C10,C06",
+            "thin",
+            "{}: slice length {}",
+            what,
+            t.slice.len()
+        );
         let x = &**t;
-        check_block(&what, heap, x as *const _ as *const u8 as usize, size_of_val(x), align_of_val(x))?;
+        check_block(
+            &what,
+            heap,
+            x as *const _ as *const u8 as usize,
+            size_of_val(x),
+            align_of_val(x),
+        )?;
         check_val(&what, &x.header.header, 1000)?;
         for (k, e) in x.slice.iter().enumerate() {
-            ensure!((e as *const T as usize) % align_of::<T>() == 0, "C05", "layout", "{}: element {} misaligned", what, k);
+            ensure!(
+                (e as *const T as usize) % align_of::<T>() == 0,
+                "C05",
+                "layout",
+                "{}: element {} misaligned",
+                what,
+                k
+            );
             check_val(&what, e, k as u64)?;
         }
-        ensure!(size_of::<ThinArc<H, T>>() == size_of::<usize>() && size_of::<Option<ThinArc<H, T>>>() == size_of::<usize>(), "C11", "ptr", "ThinArc is not one word with a niche");
+        ensure!(
+            size_of::<ThinArc<H, T>>() == size_of::<usize>()
+                && size_of::<Option<ThinArc<H, T>>>() == size_of::<usize>(),
+            "C11",
+            "ptr",
+            "ThinArc is not one word with a niche"
+        );
     }
-    ensure!(size_of::<Arc<Hs<H, T>>>() == 2 * size_of::<usize>() && size_of::<Option<Arc<Hs<H, T>>>>() == 2 * size_of::<usize>(), "C11", "ptr", "slice Arc is not two words with a niche");
+    ensure!(
+        size_of::<Arc<Hs<H, T>>>() == 2 * size_of::<usize>()
+            && size_of::<Option<Arc<Hs<H, T>>>>() == 2 * size_of::<usize>(),
+        "C11",
+        "ptr",
+        "slice Arc is not two words with a niche"
+    );
     // release
     let relname = shadow::tracked(|| -> R<&'static str> {
         Ok(match (rel, fat, thin) {
@@ -422,7 +569,13 @@ pub fn case_b<H: Sh, T: Sh>(len: usize, ctor: usize, rel: usize, st: &mut SStats
                     drop(u);
                     "try_unique -> drop UniqueArc"
                 }
-                Err(_) => return viol("C03", "uniq", format!("{}: try_unique declined for a fresh Arc", what)),
+                Err(_) => {
+                    return viol(
+                        "C03",
+                        "uniq",
+                        format!("{}: try_unique declined for a fresh Arc", what),
+                    )
+                }
             },
             (3, Some(f), _) => {
                 // header erasure only exists for H = (): fall back to plain drop otherwise
@@ -447,7 +600,13 @@ pub fn case_b<H: Sh, T: Sh>(len: usize, ctor: usize, rel: usize, st: &mut SStats
             }
             (1, _, Some(t)) => {
                 let f = Arc::from_thin(t);
-                ensure!(f.heap_ptr() as usize == heap && f.slice.len() == len && f.header.length == len, "C10", "thin", "{}: thin -> fat changed allocation or length", what);
+                ensure!(
+                    f.heap_ptr() as usize == heap && f.slice.len() == len && f.header.length == len,
+                    "C10",
+                    "thin",
+                    "{}: thin -> fat changed allocation or length",
+                    what
+                );
                 check_val(&what, &f.header.header, 1000)?;
                 for (k, e) in f.slice.iter().enumerate() {
                     check_val(&what, e, k as u64)?;
@@ -457,7 +616,13 @@ pub fn case_b<H: Sh, T: Sh>(len: usize, ctor: usize, rel: usize, st: &mut SStats
             }
             (2, _, Some(t)) => {
                 let p = t.into_raw();
-                ensure!(p as usize == heap, "C11", "ptr", "{}: ThinArc::into_raw != heap_ptr", what);
+                ensure!(
+                    p as usize == heap,
+                    "C11",
+                    "ptr",
+                    "{}: ThinArc::into_raw != heap_ptr",
+                    what
+                );
                 let t = unsafe { ThinArc::<H, T>::from_raw(p) };
                 drop(t);
                 "thin into_raw/from_raw, drop"
@@ -473,14 +638,22 @@ pub fn case_b<H: Sh, T: Sh>(len: usize, ctor: usize, rel: usize, st: &mut SStats
             (4, _, Some(t)) => {
                 let mut t = t;
                 let n = t.with_arc_mut(|a| a.slice().len());
-                ensure!(n == len, "C10", "thin", "{}: with_arc_mut sees length {}", what, n);
+                ensure!(
+                    n == len,
+                    "C10",
+                    "thin",
+                    "{}: with_arc_mut sees length {}",
+                    what,
+                    n
+                );
                 drop(t);
                 "with_arc_mut, drop thin"
             }
             (5, _, Some(t)) => {
                 #[cfg(feature = "full")]
                 {
-                    let c: arc_swap::ArcSwapAny<ThinArc<H, T>> = shadow::untracked(|| arc_swap::ArcSwapAny::new(t));
+                    let c: arc_swap::ArcSwapAny<ThinArc<H, T>> =
+                        shadow::untracked(|| arc_swap::ArcSwapAny::new(t));
                     let g = shadow::untracked(|| c.load_full());
                     drop(g);
                     shadow::untracked(|| drop(c));
@@ -496,7 +669,13 @@ pub fn case_b<H: Sh, T: Sh>(len: usize, ctor: usize, rel: usize, st: &mut SStats
                 let f = Arc::from_thin(t);
                 match Arc::try_unique(f) {
                     Ok(u) => drop(u),
-                    Err(_) => return viol("C03", "uniq", format!("{}: try_unique declined for a fresh Arc", what)),
+                    Err(_) => {
+                        return viol(
+                            "C03",
+                            "uniq",
+                            format!("{}: try_unique declined for a fresh Arc", what),
+                        )
+                    }
                 }
                 "thin -> fat -> UniqueArc, drop"
             }
@@ -504,14 +683,38 @@ pub fn case_b<H: Sh, T: Sh>(len: usize, ctor: usize, rel: usize, st: &mut SStats
         })
     })?;
     check_released(&format!("{} ({})", what, relname), heap)?;
-    ensure!(tk::z_live() == z0, "C05,C01,C06", "layout", "{} ({}): {} zero-sized elements with destructors not destroyed exactly once", what, relname, tk::z_live() - z0);
+    ensure!(
+        tk::z_live() == z0,
+        "C05,C01,C06",
+        "layout",
+        "{} ({}): {} zero-sized elements with destructors not destroyed exactly once",
+        what,
+        relname,
+        tk::z_live() - z0
+    );
     if shadow::active() {
         let lb = shadow::live_blocks();
-        ensure!(lb.is_empty(), "C05,C01", "layout", "{} ({}): blocks left behind: {:x?}", what, relname, &lb[..lb.len().min(3)]);
+        ensure!(
+            lb.is_empty(),
+            "C05,C01",
+            "layout",
+            "{} ({}): blocks left behind: {:x?}",
+            what,
+            relname,
+            &lb[..lb.len().min(3)]
+        );
     }
-    st.cases.insert(hash64(&format!("{}|{}|{}|{}|{}", H::NAME, T::NAME, len, how, relname)));
+    st.cases.insert(hash64(&format!(
+        "{}|{}|{}|{}|{}",
+        H::NAME,
+        T::NAME,
+        len,
+        how,
+        relname
+    )));
     if st.sample.len() < 6 {
-        st.sample.push(format!("{} via {} released by {}", what, how, relname));
+        st.sample
+            .push(format!("{} via {} released by {}", what, how, relname));
     }
     Ok(())
 }
@@ -571,7 +774,8 @@ pub fn case_c<T: Sh>(len: usize, ctor: usize, rel: usize, st: &mut SStats) -> R 
                 "UniqueArc::new_uninit_slice+assume_init_slice"
             }
             _ => {
-                let f: Arc<HeaderSlice<(), [T]>> = Arc::from_header_and_vec((), gen::<T>(len, true).collect());
+                let f: Arc<HeaderSlice<(), [T]>> =
+                    Arc::from_header_and_vec((), gen::<T>(len, true).collect());
                 arc = Some(f.into());
                 "from_header_and_vec(()) + From (header erasure)"
             }
@@ -580,8 +784,21 @@ pub fn case_c<T: Sh>(len: usize, ctor: usize, rel: usize, st: &mut SStats) -> R 
     let how = match r {
         Ok(h) => h,
         Err(msg) => {
-            ensure!(zst && msg.contains("ZST"), "C05,C06", "layout", "{}: constructor panicked: {}", what, msg);
-            ensure!(tk::z_live() == z0, "C06", "layout", "{}: refused constructor did not destroy its inputs exactly once", what);
+            ensure!(
+                zst && msg.contains("ZST"),
+                "C05,C06",
+                "layout",
+                "{}: constructor panicked: {}",
+                what,
+                msg
+            );
+            ensure!(
+                tk::z_live() == z0,
+                "C06",
+                "layout",
+                "{}: refused constructor did not destroy its inputs exactly once",
+                what
+            );
             st.counts.bump("shapes.c.refused-zst");
             return Ok(());
         }
@@ -593,12 +810,31 @@ pub fn case_c<T: Sh>(len: usize, ctor: usize, rel: usize, st: &mut SStats) -> R 
     let a = arc.unwrap();
     let heap = a.heap_ptr() as usize;
     let obs = |a: &Arc<[T]>| -> R {
-        ensure!(a.len() == len, "C06", "layout", "{}: length {}", what, a.len());
-        check_block(&what, heap, (**a).as_ptr() as usize, size_of_val(&**a), align_of::<T>())?;
+        ensure!(
+            a.len() == len,
+            "C06",
+            "layout",
+            "{}: length {}",
+            what,
+            a.len()
+        );
+        check_block(
+            &what,
+            heap,
+            (**a).as_ptr() as usize,
+            size_of_val(&**a),
+            align_of::<T>(),
+        )?;
         for (k, e) in a.iter().enumerate() {
             check_val(&what, e, k as u64)?;
         }
-        ensure!(Arc::as_ptr(a) as *const T as usize == (**a).as_ptr() as usize, "C11", "ptr", "{}: Arc::as_ptr != Deref address", what);
+        ensure!(
+            Arc::as_ptr(a) as *const T as usize == (**a).as_ptr() as usize,
+            "C11",
+            "ptr",
+            "{}: Arc::as_ptr != Deref address",
+            what
+        );
         Ok(())
     };
     obs(&a)?;
@@ -610,16 +846,34 @@ pub fn case_c<T: Sh>(len: usize, ctor: usize, rel: usize, st: &mut SStats) -> R 
             }
             1 => {
                 let p = Arc::into_raw(a);
-                ensure!(p as *const T as usize == unsafe { (*p).as_ptr() } as usize, "C11", "ptr", "{}: into_raw != Deref address", what);
+                ensure!(
+                    p as *const T as usize == unsafe { (*p).as_ptr() } as usize,
+                    "C11",
+                    "ptr",
+                    "{}: into_raw != Deref address",
+                    what
+                );
                 let b = unsafe { Arc::from_raw_slice(p) };
-                ensure!(b.heap_ptr() as usize == heap && Arc::count(&b) == 1, "C11", "ptr", "{}: from_raw_slice gave another allocation/count", what);
+                ensure!(
+                    b.heap_ptr() as usize == heap && Arc::count(&b) == 1,
+                    "C11",
+                    "ptr",
+                    "{}: from_raw_slice gave another allocation/count",
+                    what
+                );
                 obs(&b)?;
                 drop(b);
                 "into_raw -> from_raw_slice, drop"
             }
             2 => {
                 let f: Arc<HeaderSlice<(), [T]>> = a.into();
-                ensure!(f.heap_ptr() as usize == heap && f.slice.len() == len, "C11,C06", "ptr", "{}: header re-attachment moved the allocation", what);
+                ensure!(
+                    f.heap_ptr() as usize == heap && f.slice.len() == len,
+                    "C11,C06",
+                    "ptr",
+                    "{}: header re-attachment moved the allocation",
+                    what
+                );
                 let b: Arc<[T]> = f.into();
                 obs(&b)?;
                 drop(b);
@@ -631,7 +885,13 @@ pub fn case_c<T: Sh>(len: usize, ctor: usize, rel: usize, st: &mut SStats) -> R 
                 obs(&b)?;
                 match Arc::try_unique(b) {
                     Ok(u) => drop(u),
-                    Err(_) => return viol("C03", "uniq", format!("{}: try_unique declined for a sole owner", what)),
+                    Err(_) => {
+                        return viol(
+                            "C03",
+                            "uniq",
+                            format!("{}: try_unique declined for a sole owner", what),
+                        )
+                    }
                 }
                 "clone, drop, try_unique, drop"
             }
@@ -645,13 +905,34 @@ pub fn case_c<T: Sh>(len: usize, ctor: usize, rel: usize, st: &mut SStats) -> R 
         })
     })?;
     check_released(&format!("{} ({})", what, relname), heap)?;
-    ensure!(tk::z_live() == z0, "C05,C01,C06", "layout", "{} ({}): zero-sized elements with destructors not destroyed exactly once", what, relname);
+    ensure!(
+        tk::z_live() == z0,
+        "C05,C01,C06",
+        "layout",
+        "{} ({}): zero-sized elements with destructors not destroyed exactly once",
+        what,
+        relname
+    );
     if shadow::active() {
         let lb = shadow::live_blocks();
-        ensure!(lb.is_empty(), "C05,C01", "layout", "{} ({}): blocks left behind: {:x?}", what, relname, &lb[..lb.len().min(3)]);
+        ensure!(
+            lb.is_empty(),
+            "C05,C01",
+            "layout",
+            "{} ({}): blocks left behind: {:x?}",
+            what,
+            relname,
+            &lb[..lb.len().min(3)]
+        );
     }
     st.counts.bump(&format!("shapes.c.rel:{}", relname));
-    st.cases.insert(hash64(&format!("C|{}|{}|{}|{}", T::NAME, len, how, relname)));
+    st.cases.insert(hash64(&format!(
+        "C|{}|{}|{}|{}",
+        T::NAME,
+        len,
+        how,
+        relname
+    )));
     Ok(())
 }
 
@@ -662,25 +943,61 @@ pub fn case_str(len: usize, ctor: usize, st: &mut SStats) -> R {
     let (heap, p, l, relname);
     match ctor {
         0 | 1 => {
-            let a: Arc<str> = shadow::tracked(|| if ctor == 0 { Arc::from(&s[..]) } else { Arc::from(s.clone()) });
+            let a: Arc<str> = shadow::tracked(|| {
+                if ctor == 0 {
+                    Arc::from(&s[..])
+                } else {
+                    Arc::from(s.clone())
+                }
+            });
             heap = a.heap_ptr() as usize;
             p = (*a).as_ptr() as usize;
             l = a.len();
             ensure!(&*a == s, "C06", "layout", "{}: contents differ", what);
             check_block(&what, heap, p, l, 1)?;
-            ensure!(size_of::<Arc<str>>() == 2 * size_of::<usize>(), "C11", "ptr", "Arc<str> is not two words");
+            ensure!(
+                size_of::<Arc<str>>() == 2 * size_of::<usize>(),
+                "C11",
+                "ptr",
+                "Arc<str> is not two words"
+            );
             let q = Arc::into_raw(a);
-            ensure!(q as *const u8 as usize == p, "C11", "ptr", "{}: into_raw != Deref address", what);
+            ensure!(
+                q as *const u8 as usize == p,
+                "C11",
+                "ptr",
+                "{}: into_raw != Deref address",
+                what
+            );
             let b = unsafe { Arc::from_raw(q) };
-            ensure!(&*b == s && b.heap_ptr() as usize == heap, "C11", "ptr", "{}: from_raw(str) changed allocation/contents", what);
+            ensure!(
+                &*b == s && b.heap_ptr() as usize == heap,
+                "C11",
+                "ptr",
+                "{}: from_raw(str) changed allocation/contents",
+                what
+            );
             shadow::tracked(|| drop(b));
             relname = "into_raw/from_raw, drop";
         }
         _ => {
-            let a: Arc<HeaderSlice<u64, str>> = shadow::tracked(|| Arc::from_header_and_str(77u64, &s));
+            let a: Arc<HeaderSlice<u64, str>> =
+                shadow::tracked(|| Arc::from_header_and_str(77u64, &s));
             heap = a.heap_ptr() as usize;
-            ensure!(a.header == 77 && &a.slice == s.as_str(), "C06", "layout", "{}: contents differ", what);
-            check_block(&what, heap, &*a as *const _ as *const u8 as usize, size_of_val(&*a), align_of_val(&*a))?;
+            ensure!(
+                a.header == 77 && &a.slice == s.as_str(),
+                "C06",
+                "layout",
+                "{}: contents differ",
+                what
+            );
+            check_block(
+                &what,
+                heap,
+                &*a as *const _ as *const u8 as usize,
+                size_of_val(&*a),
+                align_of_val(&*a),
+            )?;
             let b = a.clone();
             shadow::tracked(|| {
                 drop(a);
@@ -732,7 +1049,10 @@ pub fn case_a<S: Sh>(ctor: usize, rel: usize, st: &mut SStats) -> R {
         4 => {
             let mut u = UniqueArc::<S>::new_uninit();
             u.write(S::gen(5));
-            (unsafe { UniqueArc::assume_init(u) }.shareable(), "UniqueArc::new_uninit+write+assume_init")
+            (
+                unsafe { UniqueArc::assume_init(u) }.shareable(),
+                "UniqueArc::new_uninit+write+assume_init",
+            )
         }
         5 => {
             let mut a: Arc<MaybeUninit<S>> = Arc::new_uninit();
@@ -752,22 +1072,64 @@ pub fn case_a<S: Sh>(ctor: usize, rel: usize, st: &mut SStats) -> R {
     // pointer identities [C11]
     let b = a.borrow_arc();
     let bits_b: usize = unsafe { std::mem::transmute_copy(&b) };
-    ensure!(Arc::as_ptr(&a) as usize == p, "C11", "ptr", "{}: as_ptr {:#x} != Deref address {:#x}", what, Arc::as_ptr(&a) as usize, p);
-    ensure!(bits_b == p && b.get() as *const S as usize == p, "C11", "ptr", "{}: ArcBorrow bit pattern {:#x} != value address {:#x}", what, bits_b, p);
+    ensure!(
+        Arc::as_ptr(&a) as usize == p,
+        "C11",
+        "ptr",
+        "{}: as_ptr {:#x} != Deref address {:#x}",
+        what,
+        Arc::as_ptr(&a) as usize,
+        p
+    );
+    ensure!(
+        bits_b == p && b.get() as *const S as usize == p,
+        "C11",
+        "ptr",
+        "{}: ArcBorrow bit pattern {:#x} != value address {:#x}",
+        what,
+        bits_b,
+        p
+    );
     let c = a.clone();
-    ensure!(Arc::as_ptr(&c) as usize == p && c.heap_ptr() as usize == heap, "C11", "ptr", "{}: clone exposes another address", what);
+    ensure!(
+        Arc::as_ptr(&c) as usize == p && c.heap_ptr() as usize == heap,
+        "C11",
+        "ptr",
+        "{}: clone exposes another address",
+        what
+    );
     let moved = Box::new(c);
-    ensure!(Arc::as_ptr(&moved) as usize == p, "C11", "ptr", "{}: moved handle exposes another address", what);
+    ensure!(
+        Arc::as_ptr(&moved) as usize == p,
+        "C11",
+        "ptr",
+        "{}: moved handle exposes another address",
+        what
+    );
     shadow::tracked(|| drop(moved));
     a.with_raw_offset_arc(|o| {
         let bits: usize = unsafe { std::mem::transmute_copy(o) };
-        ensure!(bits == p && &**o as *const S as usize == p, "C11", "ptr", "{}: OffsetArc bit pattern {:#x} != value address {:#x}", what, bits, p);
+        ensure!(
+            bits == p && &**o as *const S as usize == p,
+            "C11",
+            "ptr",
+            "{}: OffsetArc bit pattern {:#x} != value address {:#x}",
+            what,
+            bits,
+            p
+        );
         Ok(())
     })?;
     #[cfg(feature = "full")]
     {
         use arc_swap::RefCnt;
-        ensure!(<Arc<S> as RefCnt>::as_ptr(&a) as usize == p, "C11", "ptr", "{}: RefCnt::as_ptr != value address", what);
+        ensure!(
+            <Arc<S> as RefCnt>::as_ptr(&a) as usize == p,
+            "C11",
+            "ptr",
+            "{}: RefCnt::as_ptr != value address",
+            what
+        );
     }
     let relname = shadow::tracked(|| -> R<&'static str> {
         Ok(match rel {
@@ -777,7 +1139,13 @@ pub fn case_a<S: Sh>(ctor: usize, rel: usize, st: &mut SStats) -> R {
             }
             1 => {
                 let o = Arc::into_raw_offset(a);
-                ensure!(&*o as *const S as usize == p, "C11", "ptr", "{}: OffsetArc Deref moved", what);
+                ensure!(
+                    &*o as *const S as usize == p,
+                    "C11",
+                    "ptr",
+                    "{}: OffsetArc Deref moved",
+                    what
+                );
                 let o2 = o.clone();
                 drop(o);
                 check_val(&what, &*o2, 5)?;
@@ -787,20 +1155,53 @@ pub fn case_a<S: Sh>(ctor: usize, rel: usize, st: &mut SStats) -> R {
             2 => {
                 let o = Arc::into_raw_offset(a);
                 let back = Arc::from_raw_offset(o);
-                ensure!(back.heap_ptr() as usize == heap && Arc::count(&back) == 1, "C11", "ptr", "{}: from_raw_offset gave another allocation/count", what);
+                ensure!(
+                    back.heap_ptr() as usize == heap && Arc::count(&back) == 1,
+                    "C11",
+                    "ptr",
+                    "{}: from_raw_offset gave another allocation/count",
+                    what
+                );
                 drop(back);
                 "into_raw_offset -> from_raw_offset, drop"
             }
             3 => {
                 let q = Arc::into_raw(a);
-                ensure!(q as usize == p, "C11", "ptr", "{}: into_raw {:#x} != value address {:#x}", what, q as usize, p);
+                ensure!(
+                    q as usize == p,
+                    "C11",
+                    "ptr",
+                    "{}: into_raw {:#x} != value address {:#x}",
+                    what,
+                    q as usize,
+                    p
+                );
                 let bb = unsafe { ArcBorrow::from_ptr(q) };
-                ensure!(ArcBorrow::strong_count(&bb) == 1, "C11,C04", "ptr", "{}: ArcBorrow::from_ptr sees count {}", what, ArcBorrow::strong_count(&bb));
+                ensure!(
+                    ArcBorrow::strong_count(&bb) == 1,
+                    "C11,C04",
+                    "ptr",
+                    "{}: ArcBorrow::from_ptr sees count {}",
+                    what,
+                    ArcBorrow::strong_count(&bb)
+                );
                 let extra = bb.clone_arc();
-                ensure!(extra.heap_ptr() as usize == heap, "C11", "ptr", "{}: ArcBorrow::from_ptr().clone_arc() is another allocation", what);
+                ensure!(
+                    extra.heap_ptr() as usize == heap,
+                    "C11",
+                    "ptr",
+                    "{}: ArcBorrow::from_ptr().clone_arc() is another allocation",
+                    what
+                );
                 drop(extra);
                 let back = unsafe { Arc::from_raw(q) };
-                ensure!(back.heap_ptr() as usize == heap && Arc::count(&back) == 1, "C11", "ptr", "{}: from_raw gave another allocation/count", what);
+                ensure!(
+                    back.heap_ptr() as usize == heap && Arc::count(&back) == 1,
+                    "C11",
+                    "ptr",
+                    "{}: from_raw gave another allocation/count",
+                    what
+                );
                 check_val(&what, &*back, 5)?;
                 drop(back);
                 "into_raw -> ArcBorrow::from_ptr -> from_raw, drop"
@@ -808,8 +1209,20 @@ pub fn case_a<S: Sh>(ctor: usize, rel: usize, st: &mut SStats) -> R {
             4 => {
                 let q = Arc::into_raw(a) as *const dyn ShDyn;
                 let d: Arc<dyn ShDyn> = unsafe { Arc::from_raw(q) };
-                ensure!(d.heap_ptr() as usize == heap && Arc::count(&d) == 1 && d.ok_dyn(5), "C11", "ptr", "{}: from_raw(dyn) gave another allocation/count/contents", what);
-                ensure!(Arc::as_ptr(&d) as *const u8 as usize == p, "C11", "ptr", "{}: dyn as_ptr != value address", what);
+                ensure!(
+                    d.heap_ptr() as usize == heap && Arc::count(&d) == 1 && d.ok_dyn(5),
+                    "C11",
+                    "ptr",
+                    "{}: from_raw(dyn) gave another allocation/count/contents",
+                    what
+                );
+                ensure!(
+                    Arc::as_ptr(&d) as *const u8 as usize == p,
+                    "C11",
+                    "ptr",
+                    "{}: dyn as_ptr != value address",
+                    what
+                );
                 let d2 = d.clone();
                 drop(d);
                 drop(d2);
@@ -820,9 +1233,21 @@ pub fn case_a<S: Sh>(ctor: usize, rel: usize, st: &mut SStats) -> R {
                 {
                     use unsize::CoerceUnsize;
                     let d: Arc<dyn ShDyn> = a.unsize(unsize::Coercion!(to dyn ShDyn));
-                    ensure!(d.heap_ptr() as usize == heap && d.ok_dyn(5), "C11", "ptr", "{}: unsize moved the allocation", what);
+                    ensure!(
+                        d.heap_ptr() as usize == heap && d.ok_dyn(5),
+                        "C11",
+                        "ptr",
+                        "{}: unsize moved the allocation",
+                        what
+                    );
                     let q = Arc::into_raw(d);
-                    ensure!(q as *const u8 as usize == p, "C11", "ptr", "{}: into_raw(dyn) != value address", what);
+                    ensure!(
+                        q as *const u8 as usize == p,
+                        "C11",
+                        "ptr",
+                        "{}: into_raw(dyn) != value address",
+                        what
+                    );
                     let d = unsafe { Arc::from_raw(q) };
                     drop(d);
                     "unsize to dyn, into_raw/from_raw, drop"
@@ -839,7 +1264,13 @@ pub fn case_a<S: Sh>(ctor: usize, rel: usize, st: &mut SStats) -> R {
                     drop(v);
                     "try_unwrap"
                 }
-                Err(_) => return viol("C03,C09", "uniq", format!("{}: try_unwrap declined for a sole owner", what)),
+                Err(_) => {
+                    return viol(
+                        "C03,C09",
+                        "uniq",
+                        format!("{}: try_unwrap declined for a sole owner", what),
+                    )
+                }
             },
             7 => match Arc::try_unique(a) {
                 Ok(u) => {
@@ -848,11 +1279,23 @@ pub fn case_a<S: Sh>(ctor: usize, rel: usize, st: &mut SStats) -> R {
                     drop(v);
                     "try_unique -> into_inner"
                 }
-                Err(_) => return viol("C03,C09", "uniq", format!("{}: try_unique declined for a sole owner", what)),
+                Err(_) => {
+                    return viol(
+                        "C03,C09",
+                        "uniq",
+                        format!("{}: try_unique declined for a sole owner", what),
+                    )
+                }
             },
             8 => {
                 let f: Arc<HeaderSlice<(), S>> = a.into();
-                ensure!(f.heap_ptr() as usize == heap && &f.slice as *const S as usize == p, "C11", "ptr", "{}: header attachment moved the value", what);
+                ensure!(
+                    f.heap_ptr() as usize == heap && &f.slice as *const S as usize == p,
+                    "C11",
+                    "ptr",
+                    "{}: header attachment moved the value",
+                    what
+                );
                 drop(f);
                 "-> HeaderSlice<(),T>, drop"
             }
@@ -861,12 +1304,31 @@ pub fn case_a<S: Sh>(ctor: usize, rel: usize, st: &mut SStats) -> R {
                 {
                     use arc_swap::RefCnt;
                     let q = <Arc<S> as RefCnt>::into_ptr(a);
-                    ensure!(q as usize == p, "C11", "ptr", "{}: RefCnt::into_ptr != value address", what);
+                    ensure!(
+                        q as usize == p,
+                        "C11",
+                        "ptr",
+                        "{}: RefCnt::into_ptr != value address",
+                        what
+                    );
                     let back = unsafe { <Arc<S> as RefCnt>::from_ptr(q) };
-                    ensure!(back.heap_ptr() as usize == heap, "C11", "ptr", "{}: RefCnt::from_ptr gave another allocation", what);
-                    let cell: arc_swap::ArcSwapAny<Arc<S>> = shadow::untracked(|| arc_swap::ArcSwapAny::new(back));
+                    ensure!(
+                        back.heap_ptr() as usize == heap,
+                        "C11",
+                        "ptr",
+                        "{}: RefCnt::from_ptr gave another allocation",
+                        what
+                    );
+                    let cell: arc_swap::ArcSwapAny<Arc<S>> =
+                        shadow::untracked(|| arc_swap::ArcSwapAny::new(back));
                     let g = shadow::untracked(|| cell.load_full());
-                    ensure!(Arc::as_ptr(&g) as usize == p, "C11", "ptr", "{}: arc-swap load_full exposes another address", what);
+                    ensure!(
+                        Arc::as_ptr(&g) as usize == p,
+                        "C11",
+                        "ptr",
+                        "{}: arc-swap load_full exposes another address",
+                        what
+                    );
                     drop(g);
                     shadow::untracked(|| drop(cell));
                     "RefCnt into_ptr/from_ptr, ArcSwap new/load_full/drop"
@@ -882,7 +1344,13 @@ pub fn case_a<S: Sh>(ctor: usize, rel: usize, st: &mut SStats) -> R {
                 let u2 = u1.clone();
                 drop(u1);
                 match u2.borrow() {
-                    ArcUnionBorrow::First(b) => ensure!(b.get() as *const S as usize == p, "C12,C11", "union", "{}: union exposes another address", what),
+                    ArcUnionBorrow::First(b) => ensure!(
+                        b.get() as *const S as usize == p,
+                        "C12,C11",
+                        "union",
+                        "{}: union exposes another address",
+                        what
+                    ),
                     _ => return viol("C12", "union", format!("{}: first became second", what)),
                 }
                 drop(u2);
@@ -890,25 +1358,54 @@ pub fn case_a<S: Sh>(ctor: usize, rel: usize, st: &mut SStats) -> R {
             }
             _ => {
                 let u1: ArcUnion<u64, S> = ArcUnion::from_second(a);
-                ensure!(u1.is_second(), "C12", "union", "{}: from_second is not second", what);
+                ensure!(
+                    u1.is_second(),
+                    "C12",
+                    "union",
+                    "{}: from_second is not second",
+                    what
+                );
                 let extra = u1.as_second().unwrap().clone_arc();
                 drop(u1);
-                ensure!(Arc::as_ptr(&extra) as usize == p && Arc::count(&extra) == 1, "C12,C11", "union", "{}: union second: wrong allocation or count", what);
+                ensure!(
+                    Arc::as_ptr(&extra) as usize == p && Arc::count(&extra) == 1,
+                    "C12,C11",
+                    "union",
+                    "{}: union second: wrong allocation or count",
+                    what
+                );
                 drop(extra);
                 "ArcUnion::from_second, as_second.clone_arc, drop both"
             }
         })
     })?;
     check_released(&format!("{} ({})", what, relname), heap)?;
-    ensure!(tk::z_live() == z0, "C05,C01", "layout", "{} ({}): zero-sized value with destructor not destroyed exactly once", what, relname);
+    ensure!(
+        tk::z_live() == z0,
+        "C05,C01",
+        "layout",
+        "{} ({}): zero-sized value with destructor not destroyed exactly once",
+        what,
+        relname
+    );
     if shadow::active() {
         let lb = shadow::live_blocks();
-        ensure!(lb.is_empty(), "C05,C01", "layout", "{} ({}): blocks left behind: {:x?}", what, relname, &lb[..lb.len().min(3)]);
+        ensure!(
+            lb.is_empty(),
+            "C05,C01",
+            "layout",
+            "{} ({}): blocks left behind: {:x?}",
+            what,
+            relname,
+            &lb[..lb.len().min(3)]
+        );
     }
     st.counts.bump(&format!("shapes.a.rel:{}", relname));
-    st.cases.insert(hash64(&format!("A|{}|{}|{}", S::NAME, how, relname)));
+    st.cases
+        .insert(hash64(&format!("A|{}|{}|{}", S::NAME, how, relname)));
     if st.sample.len() < 10 && rel % 3 == 0 {
-        st.sample.push(format!("{} via {} released by {}", what, how, relname));
+        st.sample
+            .push(format!("{} via {} released by {}", what, how, relname));
     }
     Ok(())
 }
@@ -917,11 +1414,18 @@ pub fn case_a<S: Sh>(ctor: usize, rel: usize, st: &mut SStats) -> R {
 // unions over ordered pairs [C12]
 
 pub fn case_union<A: Sh, B: Sh>(variant: usize, script: u64, st: &mut SStats) -> R {
-    let what = format!("ArcUnion<{},{}> variant={} script={}", A::NAME, B::NAME, variant, script);
+    let what = format!(
+        "ArcUnion<{},{}> variant={} script={}",
+        A::NAME,
+        B::NAME,
+        variant,
+        script
+    );
     let z0 = tk::z_live();
     shadow::reset();
     ensure!(
-        size_of::<ArcUnion<A, B>>() == size_of::<usize>() && size_of::<Option<ArcUnion<A, B>>>() == size_of::<usize>(),
+        size_of::<ArcUnion<A, B>>() == size_of::<usize>()
+            && size_of::<Option<ArcUnion<A, B>>>() == size_of::<usize>(),
         "C12,C11",
         "union",
         "{}: not one word with a niche",
@@ -937,44 +1441,145 @@ pub fn case_union<A: Sh, B: Sh>(variant: usize, script: u64, st: &mut SStats) ->
     let mut unions: Vec<ArcUnion<A, B>> = Vec::new();
     let mut na = 1usize; // owners of a's allocation
     let mut nb = 1usize;
-    let u0 = shadow::tracked(|| if first { ArcUnion::from_first(a.clone()) } else { ArcUnion::from_second(b.clone()) });
+    let u0 = shadow::tracked(|| {
+        if first {
+            ArcUnion::from_first(a.clone())
+        } else {
+            ArcUnion::from_second(b.clone())
+        }
+    });
     if first {
         na += 1
     } else {
         nb += 1
     }
     unions.push(u0);
-    let other = shadow::tracked(|| if first { ArcUnion::<A, B>::from_second(b.clone()) } else { ArcUnion::<A, B>::from_first(a.clone()) });
+    let other = shadow::tracked(|| {
+        if first {
+            ArcUnion::<A, B>::from_second(b.clone())
+        } else {
+            ArcUnion::<A, B>::from_first(a.clone())
+        }
+    });
     if first {
         nb += 1
     } else {
         na += 1
     }
-    ensure!(unions[0] != other && !(unions[0] == other) && other != unions[0], "C12,C14", "union", "{}: unions holding different variants compare equal", what);
-    ensure!(unions[0] == unions[0], "C12,C14", "union", "{}: a union does not compare equal to itself", what);
+    ensure!(
+        unions[0] != other && !(unions[0] == other) && other != unions[0],
+        "C12,C14",
+        "union",
+        "{}: unions holding different variants compare equal",
+        what
+    );
+    ensure!(
+        unions[0] == unions[0],
+        "C12,C14",
+        "union",
+        "{}: a union does not compare equal to itself",
+        what
+    );
     let mut extra_a: Vec<Arc<A>> = Vec::new();
     let mut extra_b: Vec<Arc<B>> = Vec::new();
     let check = |unions: &Vec<ArcUnion<A, B>>, na: usize, nb: usize, when: &str| -> R {
         for u in unions {
-            ensure!(u.is_first() == first && u.is_second() != first, "C12", "union", "{} {}: variant accessor flipped", what, when);
-            ensure!(u.as_first().is_some() == first && u.as_second().is_some() != first, "C12", "union", "{} {}: as_first/as_second disagree with the constructor", what, when);
+            ensure!(
+                u.is_first() == first && u.is_second() != first,
+                "C12",
+                "union",
+                "{} {}: variant accessor flipped",
+                what,
+                when
+            );
+            ensure!(
+                u.as_first().is_some() == first && u.as_second().is_some() != first,
+                "C12",
+                "union",
+                "{} {}: as_first/as_second disagree with the constructor",
+                what,
+                when
+            );
             match u.borrow() {
                 ArcUnionBorrow::First(x) => {
-                    ensure!(first, "C12", "union", "{} {}: borrow() says first", what, when);
-                    ensure!(x.get() as *const A as usize == pa && x.ok(11), "C12", "union", "{} {}: first payload address/contents differ from the source Arc", what, when);
-                    ensure!(ArcBorrow::strong_count(&x) == na, "C12,C04", "union", "{} {}: count through the union is {} with {} owners", what, when, ArcBorrow::strong_count(&x), na);
+                    ensure!(
+                        first,
+                        "C12",
+                        "union",
+                        "{} {}: borrow() says first",
+                        what,
+                        when
+                    );
+                    ensure!(
+                        x.get() as *const A as usize == pa && x.ok(11),
+                        "C12",
+                        "union",
+                        "{} {}: first payload address/contents differ from the source Arc",
+                        what,
+                        when
+                    );
+                    ensure!(
+                        ArcBorrow::strong_count(&x) == na,
+                        "C12,C04",
+                        "union",
+                        "{} {}: count through the union is {} with {} owners",
+                        what,
+                        when,
+                        ArcBorrow::strong_count(&x),
+                        na
+                    );
                 }
                 ArcUnionBorrow::Second(x) => {
-                    ensure!(!first, "C12", "union", "{} {}: borrow() says second", what, when);
-                    ensure!(x.get() as *const B as usize == pb && x.ok(22), "C12", "union", "{} {}: second payload address/contents differ from the source Arc", what, when);
-                    ensure!(ArcBorrow::strong_count(&x) == nb, "C12,C04", "union", "{} {}: count through the union is {} with {} owners", what, when, ArcBorrow::strong_count(&x), nb);
+                    ensure!(
+                        !first,
+                        "C12",
+                        "union",
+                        "{} {}: borrow() says second",
+                        what,
+                        when
+                    );
+                    ensure!(
+                        x.get() as *const B as usize == pb && x.ok(22),
+                        "C12",
+                        "union",
+                        "{} {}: second payload address/contents differ from the source Arc",
+                        what,
+                        when
+                    );
+                    ensure!(
+                        ArcBorrow::strong_count(&x) == nb,
+                        "C12,C04",
+                        "union",
+                        "{} {}: count through the union is {} with {} owners",
+                        what,
+                        when,
+                        ArcBorrow::strong_count(&x),
+                        nb
+                    );
                 }
             }
-            ensure!(ArcUnion::strong_count(u) == if first { na } else { nb }, "C12,C04", "union", "{} {}: ArcUnion::strong_count wrong", what, when);
+            ensure!(
+                ArcUnion::strong_count(u) == if first { na } else { nb },
+                "C12,C04",
+                "union",
+                "{} {}: ArcUnion::strong_count wrong",
+                what,
+                when
+            );
         }
         Ok(())
     };
-    ensure!(Arc::count(&a) == na && Arc::count(&b) == nb, "C12,C04", "union", "{}: counts after construction {}/{} expected {}/{}", what, Arc::count(&a), Arc::count(&b), na, nb);
+    ensure!(
+        Arc::count(&a) == na && Arc::count(&b) == nb,
+        "C12,C04",
+        "union",
+        "{}: counts after construction {}/{} expected {}/{}",
+        what,
+        Arc::count(&a),
+        Arc::count(&b),
+        na,
+        nb
+    );
     check(&unions, na, nb, "after construction")?;
     for step in 0..6 {
         match rng.below(5) {
@@ -1021,13 +1626,36 @@ pub fn case_union<A: Sh, B: Sh>(variant: usize, script: u64, st: &mut SStats) ->
             }
             _ => {
                 let u = &unions[0];
-                ensure!(ArcUnion::ptr_eq(u, u), "C12", "union", "{}: ptr_eq(u,u) false", what);
+                ensure!(
+                    ArcUnion::ptr_eq(u, u),
+                    "C12",
+                    "union",
+                    "{}: ptr_eq(u,u) false",
+                    what
+                );
                 let v = shadow::tracked(|| u.clone());
-                ensure!(ArcUnion::ptr_eq(u, &v), "C12", "union", "{}: ptr_eq(u, u.clone()) false", what);
+                ensure!(
+                    ArcUnion::ptr_eq(u, &v),
+                    "C12",
+                    "union",
+                    "{}: ptr_eq(u, u.clone()) false",
+                    what
+                );
                 shadow::tracked(|| drop(v));
             }
         }
-        ensure!(Arc::count(&a) == na && Arc::count(&b) == nb, "C12,C04", "union", "{} step {}: counts {}/{} expected {}/{}", what, step, Arc::count(&a), Arc::count(&b), na, nb);
+        ensure!(
+            Arc::count(&a) == na && Arc::count(&b) == nb,
+            "C12,C04",
+            "union",
+            "{} step {}: counts {}/{} expected {}/{}",
+            what,
+            step,
+            Arc::count(&a),
+            Arc::count(&b),
+            na,
+            nb
+        );
         check(&unions, na, nb, "mid-script")?;
     }
     // let the union be the last owner of its allocation
@@ -1040,26 +1668,66 @@ pub fn case_union<A: Sh, B: Sh>(variant: usize, script: u64, st: &mut SStats) ->
     });
     // now only `unions` own the variant's allocation; the other allocation must be gone already
     let (mine, gone) = if first { (ha, hb) } else { (hb, ha) };
-    check_released_p(&format!("{}: the other variant's allocation", what), gone, "C12,C05")?;
+    check_released_p(
+        &format!("{}: the other variant's allocation", what),
+        gone,
+        "C12,C05",
+    )?;
     if shadow::active() {
-        ensure!(shadow::live_layout(mine).is_some(), "C12,C01", "union", "{}: the union's allocation was freed while unions still own it", what);
+        ensure!(
+            shadow::live_layout(mine).is_some(),
+            "C12,C01",
+            "union",
+            "{}: the union's allocation was freed while unions still own it",
+            what
+        );
     }
     let n = unions.len();
     for (k, u) in unions.drain(..).enumerate() {
         if k + 1 == n {
-            ensure!(ArcUnion::strong_count(&u) == 1, "C12,C04", "union", "{}: last union sees count {}", what, ArcUnion::strong_count(&u));
+            ensure!(
+                ArcUnion::strong_count(&u) == 1,
+                "C12,C04",
+                "union",
+                "{}: last union sees count {}",
+                what,
+                ArcUnion::strong_count(&u)
+            );
         }
         shadow::tracked(|| drop(u));
     }
-    check_released_p(&format!("{}: last release through the union", what), mine, "C12,C05")?;
-    ensure!(tk::z_live() == z0, "C12,C01", "union", "{}: zero-sized payload with destructor not destroyed exactly once ({} alive)", what, tk::z_live() - z0);
+    check_released_p(
+        &format!("{}: last release through the union", what),
+        mine,
+        "C12,C05",
+    )?;
+    ensure!(
+        tk::z_live() == z0,
+        "C12,C01",
+        "union",
+        "{}: zero-sized payload with destructor not destroyed exactly once ({} alive)",
+        what,
+        tk::z_live() - z0
+    );
     if shadow::active() {
         let lb = shadow::live_blocks();
-        ensure!(lb.is_empty(), "C12,C01", "union", "{}: blocks left behind: {:x?}", what, &lb[..lb.len().min(3)]);
+        ensure!(
+            lb.is_empty(),
+            "C12,C01",
+            "union",
+            "{}: blocks left behind: {:x?}",
+            what,
+            &lb[..lb.len().min(3)]
+        );
     }
     st.counts.bump("shapes.union");
-    st.counts.bump(if first { "shapes.union.first" } else { "shapes.union.second" });
-    st.cases.insert(hash64(&format!("U|{}|{}|{}", A::NAME, B::NAME, variant)));
+    st.counts.bump(if first {
+        "shapes.union.first"
+    } else {
+        "shapes.union.second"
+    });
+    st.cases
+        .insert(hash64(&format!("U|{}|{}|{}", A::NAME, B::NAME, variant)));
     if st.sample.len() < 12 && script % 5 == 0 {
         st.sample.push(what);
     }
@@ -1090,25 +1758,95 @@ impl ExactSizeIterator for Liar {
 pub fn overflow_cases(st: &mut SStats) -> R {
     let big = isize::MAX as usize;
     let cases: Vec<(&'static str, Box<dyn Fn()>)> = vec![
-        ("Arc::<[u64]>::new_uninit_slice(isize::MAX/8+1)", Box::new(move || drop(Arc::<[MaybeUninit<u64>]>::new_uninit_slice(big / 8 + 1)))),
-        ("Arc::<[u64]>::new_uninit_slice(usize::MAX/8)", Box::new(|| drop(Arc::<[MaybeUninit<u64>]>::new_uninit_slice(usize::MAX / 8)))),
-        ("Arc::<[u16]>::new_uninit_slice(usize::MAX)", Box::new(|| drop(Arc::<[MaybeUninit<u16>]>::new_uninit_slice(usize::MAX)))),
-        ("Arc::<[u8]>::new_uninit_slice(isize::MAX-7)", Box::new(move || drop(Arc::<[MaybeUninit<u8>]>::new_uninit_slice(big - 7)))),
-        ("Arc::<[u8]>::new_uninit_slice(usize::MAX)", Box::new(|| drop(Arc::<[MaybeUninit<u8>]>::new_uninit_slice(usize::MAX)))),
-        ("UniqueArc::<[A64]>::new_uninit_slice(usize::MAX/64+2)", Box::new(|| drop(UniqueArc::<[MaybeUninit<A64>]>::new_uninit_slice(usize::MAX / 64 + 2)))),
+        (
+            "Arc::<[u64]>::new_uninit_slice(isize::MAX/8+1)",
+            Box::new(move || drop(Arc::<[MaybeUninit<u64>]>::new_uninit_slice(big / 8 + 1))),
+        ),
+        (
+            "Arc::<[u64]>::new_uninit_slice(usize::MAX/8)",
+            Box::new(|| drop(Arc::<[MaybeUninit<u64>]>::new_uninit_slice(usize::MAX / 8))),
+        ),
+        (
+            "Arc::<[u16]>::new_uninit_slice(usize::MAX)",
+            Box::new(|| drop(Arc::<[MaybeUninit<u16>]>::new_uninit_slice(usize::MAX))),
+        ),
+        (
+            "Arc::<[u8]>::new_uninit_slice(isize::MAX-7)",
+            Box::new(move || drop(Arc::<[MaybeUninit<u8>]>::new_uninit_slice(big - 7))),
+        ),
+        (
+            "Arc::<[u8]>::new_uninit_slice(usize::MAX)",
+            Box::new(|| drop(Arc::<[MaybeUninit<u8>]>::new_uninit_slice(usize::MAX))),
+        ),
+        (
+            "UniqueArc::<[A64]>::new_uninit_slice(usize::MAX/64+2)",
+            Box::new(|| {
+                drop(UniqueArc::<[MaybeUninit<A64>]>::new_uninit_slice(
+                    usize::MAX / 64 + 2,
+                ))
+            }),
+        ),
         (
             "UniqueArc::from_header_and_uninit_slice(A64, isize::MAX/16 u128)",
-            Box::new(move || drop(UniqueArc::<HeaderSlice<A64, [MaybeUninit<u128>]>>::from_header_and_uninit_slice(A64::gen(1), big / 16 + 1))),
+            Box::new(move || {
+                drop(UniqueArc::<HeaderSlice<A64, [MaybeUninit<u128>]>>::from_header_and_uninit_slice(A64::gen(1), big / 16 + 1))
+            }),
         ),
-        ("Arc::from_header_and_iter(lying len usize::MAX/2)", Box::new(|| drop(Arc::from_header_and_iter(1u8, Liar { claimed: usize::MAX / 2 })))),
-        ("Arc::from_header_and_iter(lying len isize::MAX/8+1)", Box::new(move || drop(Arc::from_header_and_iter((), Liar { claimed: big / 8 + 1 })))),
-        ("ThinArc::from_header_and_iter(lying len usize::MAX/4)", Box::new(|| drop(ThinArc::from_header_and_iter(7u32, Liar { claimed: usize::MAX / 4 })))),
-        ("FromIterator with lying exact hint usize::MAX/8+9", Box::new(|| drop(Liar { claimed: usize::MAX / 8 + 9 }.collect::<Arc<[u64]>>()))),
+        (
+            "Arc::from_header_and_iter(lying len usize::MAX/2)",
+            Box::new(|| {
+                drop(Arc::from_header_and_iter(
+                    1u8,
+                    Liar {
+                        claimed: usize::MAX / 2,
+                    },
+                ))
+            }),
+        ),
+        (
+            "Arc::from_header_and_iter(lying len isize::MAX/8+1)",
+            Box::new(move || {
+                drop(Arc::from_header_and_iter(
+                    (),
+                    Liar {
+                        claimed: big / 8 + 1,
+                    },
+                ))
+            }),
+        ),
+        (
+            "ThinArc::from_header_and_iter(lying len usize::MAX/4)",
+            Box::new(|| {
+                drop(ThinArc::from_header_and_iter(
+                    7u32,
+                    Liar {
+                        claimed: usize::MAX / 4,
+                    },
+                ))
+            }),
+        ),
+        (
+            "FromIterator with lying exact hint usize::MAX/8+9",
+            Box::new(|| {
+                drop(
+                    Liar {
+                        claimed: usize::MAX / 8 + 9,
+                    }
+                    .collect::<Arc<[u64]>>(),
+                )
+            }),
+        ),
     ];
     for (name, f) in cases {
         shadow::reset();
         let r = shadow::tracked(|| catch(|| f()));
-        ensure!(r.is_err(), "C05", "overflow", "{}: a size computation that overflows was not refused with a panic", name);
+        ensure!(
+            r.is_err(),
+            "C05",
+            "overflow",
+            "{}: a size computation that overflows was not refused with a panic",
+            name
+        );
         if shadow::active() {
             let lb = shadow::live_blocks();
             // the panic payload itself may still be alive inside `r`; drop it first
@@ -1122,7 +1860,13 @@ pub fn overflow_cases(st: &mut SStats) -> R {
     // zero-sized elements: any length is representable
     shadow::reset();
     let a: Arc<[MaybeUninit<()>]> = shadow::tracked(|| Arc::new_uninit_slice(usize::MAX));
-    ensure!(a.len() == usize::MAX, "C05,C06", "overflow", "new_uninit_slice::<()>(usize::MAX) has length {}", a.len());
+    ensure!(
+        a.len() == usize::MAX,
+        "C05,C06",
+        "overflow",
+        "new_uninit_slice::<()>(usize::MAX) has length {}",
+        a.len()
+    );
     let heap = a.heap_ptr() as usize;
     shadow::tracked(|| drop(a));
     check_released("new_uninit_slice::<()>(usize::MAX)", heap)?;
